@@ -733,6 +733,18 @@ func (env *CEnv) call(n *Node) cval {
 		// list_at(ptr, "field"): the value of a field of the ClientStateResponseWriter behind ptr
 		b := env.term(n.Kids[0])
 		return cval{V: App("f!authboss.ClientStateResponseWriter."+n.Kids[1].S, SInt, b)}
+	case "loc":
+		// loc(ab, TxtKey): the text Authboss.Localizef yields for a key without arguments
+		a := env.term(n.Kids[0])
+		k := env.eval(n.Kids[1])
+		sv, ok := k.V.(*StructV)
+		if !ok || len(sv.F) != 2 {
+			cfail("loc: second argument must be a LocalizationKey")
+		}
+		return cval{V: App("loctext", SStr, a, env.toTerm(sv.F[0]), env.toTerm(sv.F[1]), IntLit(0))}
+	case "maplen":
+		m := env.eval(n.Kids[0])
+		return cval{V: env.ex.lenOf(env.scratchState(), m.V)}
 	case "offsite":
 		// offsite(s): a browser resolves s to another origin (DESIGN appendix C):
 		// optional leading C0/space, tab/newline/CR ignored, then a scheme
